@@ -328,6 +328,14 @@ class SimSocket(object):
         if self.conn is None or self.shut:
             w.rec('sendall_unconnected', self.sid, data)
             raise _mkerr('pipe')
+        if f and f.endswith('-after'):
+            # the whole buffer reached the wire, and then the call was interrupted (CPython runs signal handlers after
+            # every successful send(): a KeyboardInterrupt comes out of a sendall() that has done its work)
+            w.rec('sendall', self.sid, data)
+            self.conn.tx += data
+            self.conn.server.on_write(data)
+            w.rec('sendall_fault', self.sid, (f, b''))
+            raise _mkerr(f[:-6])
         if f:
             w.rec('sendall_fault', self.sid, (f, data))
             if f in BREAKING:
